@@ -211,7 +211,7 @@ func ruleRenderStores(c *Ctx) []Obligation {
 		total := 0
 		for _, ef := range g.Sum[e].sortedEffects() {
 			switch ef.Kind {
-			case "store", "mapupdate", "extmut":
+			case "store", "mapupdate", "extmut", "appendto":
 			default:
 				continue
 			}
